@@ -194,7 +194,7 @@ impl R {
             "function" => {
                 self.tok("function");
                 // an explicit null name is the legacy unnamed function `function () ...`
-                let nameless = n["a"].get("name").map(|v| v.is_null()).unwrap_or(false);
+                let nameless = n["a"].get("name").map(|v| v.is_null()).unwrap_or(false) || a_bool(n, "nameless");
                 if !nameless {
                     self.anchor(id, "name");
                     self.tok(&name.unwrap_or_else(|| format!("f{}", id)));
